@@ -300,8 +300,36 @@ def worker(ctx):
             check_generate_levels(ctx, tree, read, write, rng.choice([1, 3]), reuse=rng.random() < 0.5)
         if i % 301 == 0:
             ctx.sample({"inputs": inputs[:3]})
+    harvested_generation(ctx)
     if ctx.shard == 0:
         generation_probes(ctx)
+
+
+def harvested_generation(ctx):
+    """generation levels over dialect-specific statements (harvested vocabulary, gen/harvest.py) written to other dialects:
+    this is where unsupported constructs and the transforms that report them actually occur"""
+    import sqlglot
+    from ..common import dialect_names, guarded
+    from ..gen.harvest import harvested
+
+    names = [d for d in dialect_names() if d]
+    stride = 4 if ctx.tier == "quick" else 1
+    k = 0
+    for di, d in enumerate(names):
+        texts, found = harvested(d)
+        for ti, s in enumerate(texts):
+            k += 1
+            if k % ctx.nshards != ctx.shard or (ti + di) % stride:
+                continue
+            if ctx.expired():
+                return
+            st, tree = guarded(lambda: sqlglot.parse_one(s, read=d), len(s) // 3 + 10)
+            if st != "ok" or tree is None:
+                continue
+            ctx.count("harvested_trees")
+            for j in range(2 if ctx.tier == "quick" else 4):
+                write = names[(di * 7 + ti * 3 + j * 11) % len(names)]
+                check_generate_levels(ctx, tree, d, write, 3 if (ti + j) % 2 else 1, reuse=(ti + j) % 3 == 0)
 
 
 UNSUPPORTED_SEEDS = [
